@@ -147,6 +147,10 @@ class CompressedSerde:
 
     def serialize(self, key, value):
         value, flags = self._serde.serialize(key, value)
+        if isinstance(value, str):
+            # e.g. the decimal text the default serializer produces for an int:
+            # the compressor needs bytes
+            value = value.encode("utf8")
 
         if len(value) > self._min_compress_len > 0:
             old_value = value
